@@ -138,7 +138,7 @@ class Sem:
 
     # ---- the universe of atoms two types can tell apart
     def universe(self, ts):
-        strs, nums, keys = {"zz"}, {7919}, {"k_zz"}
+        strs, nums, keys = {"zz"}, {7919}, {"k_zz", "k_yy", "k_xx"}
         seen = set()
         def go(t):
             t = strip(t)
@@ -264,9 +264,14 @@ class Sem:
             if t[2] is not None:
                 kt, (req, vt) = t[2]
                 declared = {n for n, _ in t[1]}
-                extra_keys = [x for x in keys if x not in declared and self.member(kt, S(x), True)]
+                extra_keys = [x for x in sorted(keys, key=lambda x: (not x.startswith('k_'), x)) if x not in declared and self.member(kt, S(x), True)]
                 vals = self._cap(self._enum(vt, uni, depth - 1, cap), 4)
                 more = [OBJ(o[1] + [(ek, x)]) for o in out[:cap] for ek in extra_keys[:2] for x in vals]
+                # two (and three) extra keys with different values: an object can escape several alternatives through different keys
+                if len(extra_keys) >= 2:
+                    more += [OBJ(o[1] + [(extra_keys[0], x), (extra_keys[1], y)]) for o in out[:6] for x in vals for y in vals if x != y]
+                if len(extra_keys) >= 3 and len(vals) >= 3:
+                    more += [OBJ(o[1] + [(extra_keys[0], vals[0]), (extra_keys[1], vals[1]), (extra_keys[2], vals[2])]) for o in out[:3]]
                 if more: self.exhaustive = False       # objects with more extra keys exist
                 out += more
             return self._cap(out, cap * 3)
